@@ -171,4 +171,31 @@ def PeerId.serialize (humanReadable : Bool) (p : PeerId) : List UInt8 :=
 def PeerId.deserialize (maxInline : Nat) (humanReadable : Bool) (v : List UInt8) : Except ParseError PeerId :=
   if humanReadable then PeerId.fromStr maxInline v else PeerId.fromBytes maxInline v
 
+/-! ## Which `PeerId` values exist
+
+The field `multihash` is private: a `PeerId` can only come out of the constructors below (safe Rust).
+Arguments of Rust type `Multihash<64>` / `multiaddr::PeerId` satisfy their type invariant `Wf`. -/
+
+/-- The invariant all constructors establish (it is the reference's acceptance rule as well). -/
+def PeerId.Valid (maxInline : Nat) (p : PeerId) : Prop :=
+  Multihash.Wf p.multihash ∧
+  (p.multihash.code = SHA2_256_CODE ∨
+    (p.multihash.code = IDENTITY_CODE ∧ p.multihash.digest.length ≤ maxInline))
+
+inductive PeerId.Constructible (maxInline : Nat) (hash : List UInt8 → List UInt8) : PeerId → Prop
+  | ofKey (k : List UInt8) (p : PeerId) :
+      PeerId.fromPublicKeyProtobuf maxInline hash k = .ok p → Constructible maxInline hash p
+  | ofMultihash (mh : Multihash) (p : PeerId) : Multihash.Wf mh →
+      PeerId.fromMultihash maxInline mh = .ok p → Constructible maxInline hash p
+  | ofBytes (bs : List UInt8) (p : PeerId) :
+      PeerId.fromBytes maxInline bs = .ok p → Constructible maxInline hash p
+  | ofStr (s : List UInt8) (p : PeerId) :
+      PeerId.fromStr maxInline s = .ok p → Constructible maxInline hash p
+  | ofRandom (r : List UInt8) (p : PeerId) : r.length = 32 →
+      PeerId.random r = .ok p → Constructible maxInline hash p
+  | ofMultiaddr (a : Multiaddr) (p : PeerId) : (∀ r, Protocol.p2p r ∈ a → Multihash.Wf r.multihash) →
+      PeerId.tryFromMultiaddr maxInline a = some p → Constructible maxInline hash p
+  | ofDeserialize (hr : Bool) (v : List UInt8) (p : PeerId) :
+      PeerId.deserialize maxInline hr v = .ok p → Constructible maxInline hash p
+
 end Litep2pVerif.Id
